@@ -543,6 +543,21 @@ func c17R7(c *Ctx) {
 		return
 	}
 	c.check(isNilConst(cas.Common().Args[1]), "relay/CAS-from-nil", c.ipos(cas), "relay adoption is a CAS from nil", "relay adoption CAS does not start from nil")
+	// the adopted pair learns which relay it belongs to before its pumps start (they park and reset through it)
+	var bind ssa.Instruction
+	for _, ci := range callsIn(f, anyID) {
+		if isAtomicOnField(ci, "relay", "Store") && isVar("r")(ci.Common().Args[1]) {
+			bind = ci.(ssa.Instruction)
+		}
+	}
+	nGo := 0
+	eachInstr(f, func(in ssa.Instruction) {
+		if g, ok := in.(*ssa.Go); ok && (calleeID(&g.Call) == "(*trzsz.tunnelRelay).wrapInput" || calleeID(&g.Call) == "(*trzsz.tunnelRelay).wrapOutput") {
+			nGo++
+			c.check(bind != nil && domI(bind, g) && domI(cas.(ssa.Instruction), bind), "relay/pair-bound-before-pumps", c.ipos(g), "the adopted pair is bound to the relay before its pumps start", "the tunnel pumps start without being bound to the relay: chunks arriving during a handshake are not parked and end markers do not reset the relay")
+		}
+	})
+	c.check(nGo == 2, "relay/both-pumps-started", c.ipos(cas), "both tunnel pumps are started for the adopted pair", "the adopted pair does not get both of its pumps")
 	fs := factsAt(cas.Block())
 	r1 := greetingEqFacts(fs, isHelloResult(0))
 	r2 := greetingEqFacts(fs, isHelloResult(1))
